@@ -15,7 +15,7 @@ RULE = ("one corpus (labelling tables x beta forms x layouts; synthetic likeliho
         "complete runs: equal labels; non-trivial = corpus item on which >=3 modes produced an output that was compared; distinct by item id")
 ASSUMPTIONS = ["NUMBA_BOUNDSCHECK=1 is the only memory sanitizer available for JIT-compiled kernels",
                "inputs restricted to dtypes/layouts the public API can deliver to a kernel"]
-SHARD_TIMEOUT = {"quick": 900, "thorough": 3400}
+SHARD_TIMEOUT = {"quick": 300, "thorough": 3400}
 MODES = ["jit", "jit_bc", "interp", "nonumba"]
 
 
